@@ -502,6 +502,33 @@ def run_c08(repo, tier, seed, only=None):
                     okc = res[0] == 'err'
                 if not okc:
                     R.fail('bounded:C08.command-line-override-sets-exactly-that-path-or-fails', f'base={G.render(base)} option={opt} got={res!r}'[:600], {'family': 'c08cmd', 'docs': [G.render(base)], 'option': opt})
+    # command-line overrides through LIST indices (several adjacent indices on one path component)
+    import copy as _copy
+    nested = {'m': [[1, 2, 3], [4, 5, 6], [7, 8, 9]], 'a': {'l': [[10, 11], [12]], 't': [[[0, 1], [2, 3]], [[4, 5], [6, 7]]]}}
+    cand = [('m', 0, 2), ('m', 2, 0), ('m', 1, 1), ('a', 'l', 0, 1), ('a', 'l', 1, 0), ('a', 't', 0, 1, 1), ('a', 't', 1, 0, 1), ('m', 3, 0), ('a', 'l', 1, 1), ('a', 't', 0, 2, 0)]
+    for q in cand + [rng.choice(cand) for _ in range(n_cases(tier, 5, 40))]:
+        opt = q[0] + ''.join(f'[{x}]' if isinstance(x, int) else f'.{x}' for x in q[1:]) + '=99'
+        try:
+            G.get_path(nested, q)
+            exists = True
+        except (IndexError, KeyError, TypeError):
+            exists = False
+        try:
+            y, f, raw = ay.Config.process_cmdline([opt])
+            import yaml as _y
+            cfg = ay.Config.build(_y.safe_dump(nested), *y, raw_yaml=[True] + raw, filename=[None] + f)
+            res = ('ok', to_plain(cfg))
+        except Exception as e:
+            res = ('err', type(e).__name__)
+        R.cases += 1
+        if exists:
+            exp = _copy.deepcopy(nested)
+            G.set_path(exp, q, 99)
+            okc = res[0] == 'ok' and unordered_eq(res[1], exp)
+        else:
+            okc = res[0] == 'err'
+        if not okc:
+            R.fail('bounded:C08.command-line-override-sets-exactly-that-path-or-fails', f'base={nested} option={opt} got={res!r}'[:600], {'family': 'c08cmd', 'docs': [repr(nested)], 'option': opt})
     return R.result()
 
 
